@@ -178,11 +178,12 @@ structure Ndef where
   hi : Nat
   deriving Repr
 
-/-- the limit of the final length check: the capacity, for Type 2 also the free bytes behind the length field -/
-def roomOf (t1 : Bool) (skip : Skip) (off hdr end_ : Nat) (cap : Int) : Int :=
-  if t1 then cap else min (Tlv.countFree skip (off + hdr) end_ : Int) cap
+/-- Type 2 (repaired) verifies after the walk that the length field and the value, placed around the
+skip bytes, are inside the data area; the Type 1 `read_tlv` has stopped at the end of the area already -/
+def fits (t1 : Bool) (skip : Skip) (off hdr end_ len : Nat) : Bool :=
+  t1 || (decide (off + hdr ≤ end_) && decide (len ≤ Tlv.countFree skip (off + hdr) end_))
 
-/-- loop + `get_capacity` + the final length check -/
+/-- loop + `get_capacity` + the final placement check -/
 def finish {σ} (M : Mem σ) (t1 : Bool) (start end_ : Nat) (skip0 : Skip) (rw : Nat) (s : σ) :
     Py (Option Ndef) × σ :=
   match walk M t1 end_ (end_ + 1) start skip0 s with
@@ -193,8 +194,7 @@ def finish {σ} (M : Mem σ) (t1 : Bool) (start end_ : Nat) (skip0 : Skip) (rw :
     | none => (.ok none, s')
     | some (v, as, hdr) =>
       let cap := capacity fd.skip fd.off end_
-      -- Type 2 (repaired): the value must fit between the length field and the end of the area
-      if (v.length : Int) > roomOf t1 fd.skip fd.off hdr end_ cap then (.ok none, s')
+      if ¬ fits t1 fd.skip fd.off hdr end_ v.length then (.ok none, s')
       else (.ok (some { length := v.length, cap := cap, readable := decide (rw / 16 = 0),
                         writeable := decide (rw % 16 = 0), octets := v, addrs := as,
                         lo := start, hi := end_ }), s')
@@ -309,28 +309,32 @@ def segLoop (t : Tag) (uid : Bytes) (stop : Nat) : Nat → S1 → Py Unit × S1
           if rsp.length < 129 then (.error (.tagCmd 2), s1)
           else segLoop t uid stop f { s1 with cache := s1.cache ++ (rsp.drop 1).take 128 }
 
+/-- `if len(self) < 120:` read all static memory (RALL), the answer replaces the cache -/
+def stageA (t : Tag) (uid : Bytes) (s : S1) : Py Unit × S1 :=
+  if s.cache.length < 120 then
+    match trans1 t ([0, 0, 0] ++ uid) s with
+    | (.error e, s1) => (.error e, s1)
+    | (.ok rsp, s1) =>
+      if rsp.length < 2 then (.error (.tagCmd 2), s1)
+      else (.ok (), { s1 with hdr := rsp.take 2, cache := rsp.drop 2 })
+  else (.ok (), s)
+
+/-- `if stop > 120 and len(self) < 128:` READ8 of block 15, `cache[120:128] = data` -/
+def stageB (t : Tag) (uid : Bytes) (stop : Nat) (s1 : S1) : Py Unit × S1 :=
+  if stop > 120 ∧ s1.cache.length < 128 then
+    match trans1 t ([0x02, 15] ++ zeros8 ++ uid) s1 with
+    | (.error e, s2) => (.error e, s2)
+    | (.ok rsp, s2) =>
+      if rsp.length < 9 then (.error (.tagCmd 2), s2)
+      else (.ok (), { s2 with cache := s2.cache.take 120 ++ (rsp.drop 1).take 8 ++ s2.cache.drop 128 })
+  else (.ok (), s1)
+
 /-- `Type1TagMemoryReader._read_from_tag(stop)` -/
 def fill1 (t : Tag) (uid : Bytes) (stop : Nat) (s : S1) : Py Unit × S1 :=
-  let a : Py Unit × S1 :=
-    if s.cache.length < 120 then
-      match trans1 t ([0, 0, 0] ++ uid) s with
-      | (.error e, s1) => (.error e, s1)
-      | (.ok rsp, s1) =>
-        if rsp.length < 2 then (.error (.tagCmd 2), s1)
-        else (.ok (), { s1 with hdr := rsp.take 2, cache := rsp.drop 2 })
-    else (.ok (), s)
-  match a with
+  match stageA t uid s with
   | (.error e, s1) => (.error e, s1)
   | (.ok _, s1) =>
-    let b : Py Unit × S1 :=
-      if stop > 120 ∧ s1.cache.length < 128 then
-        match trans1 t ([0x02, 15] ++ zeros8 ++ uid) s1 with
-        | (.error e, s2) => (.error e, s2)
-        | (.ok rsp, s2) =>
-          if rsp.length < 9 then (.error (.tagCmd 2), s2)
-          else (.ok (), { s2 with cache := s2.cache.take 120 ++ (rsp.drop 1).take 8 ++ s2.cache.drop 128 })
-      else (.ok (), s1)
-    match b with
+    match stageB t uid stop s1 with
     | (.error e, s2) => (.error e, s2)
     | (.ok _, s2) => segLoop t uid stop (stop + 1) s2
 
